@@ -877,9 +877,9 @@ def hex_all_blocks(stride=1, phase=0):
     return out
 
 # ---- nested calls: callbacks that call the API from inside (model: RdsModel/Reentrant.lean) ----
-def reentrant(ops, seed, period=12):
+def reentrant(ops, seed, period=4):
     """insert `ri m` lines into a stream: single calls and stretches during which callback j resets the parser (5000+j),
-    registers callback k (3000+100j+4k), or unregisters k / changes the user data (1000+100j+4k+bits) from INSIDE the call.
+    parses a fixed error-free group on the same parser (7000+j), registers callback k (3000+100j+4k), or unregisters k / changes the user data (1000+100j+4k+bits) from INSIDE the call.
     Only the modes the nested-call model covers are used. Two thirds are one-shots (the mode is on for exactly one call, so
     that what the nested call left behind meets ordinary traffic straight afterwards), the rest stretches of 2..30 calls."""
     r = random.Random(seed * 7919 + 13)
@@ -889,8 +889,9 @@ def reentrant(ops, seed, period=12):
         x = r.random()
         j = r.choice([0, 1, 1, 1, 2, 2, 3, 4, 5, 6, 7, 8, 8, 9, 9, 9, 10, 11])
         k = r.randrange(12)
-        if x < 0.7: return 5000 + j
-        if x < 0.85: return 3000 + 100 * j + 4 * k
+        if x < 0.55: return 5000 + j
+        if x < 0.80: return 7000 + j          # callback j parses a fixed group on the same parser
+        if x < 0.90: return 3000 + 100 * j + 4 * k
         return 1000 + 100 * j + 4 * k + r.randrange(1, 4)
     for l in ops:
         isp = l.startswith("p ") or l.startswith("s ")
